@@ -77,6 +77,7 @@ def parseKernel : List String → Except String ((BigF → BigF) × List String)
   | "1" :: d :: rest => do let d ← num d; return (rhoHuber d, rest)
   | "2" :: d :: rest => do let d ← num d; return (rhoPseudoHuber d, rest)
   | "3" :: d :: rest => do let d ← num d; return (rhoCauchy d, rest)
+  | "4" :: d :: rest => do let d ← num d; return (rhoShiftHuber d, rest)
   | _ => .error "bad-kernel"
 
 def parseKernels : Nat → List String → Except String (List (BigF → BigF) × List String)
